@@ -7,6 +7,12 @@
       finding; compared with key_model -> broken tie.  The absent-key cell of every key comes from one run without
       any configuration file.  Where cheap, the behaviour is checked too (sort order, filters, detection switches,
       output directory): the echoed value is the one the analysis used.
+ (D1x) the same keys under an EXPLICIT `--config` file (Cli/Discovery.v: --config is the file in force, model and spec, evaluated in
+      Coq for the three layouts used): per key one observable non-default value (thorough: every one) in a --config file next to the
+      project, (alone) with no discoverable file, (against) with a discoverable .pyscn.toml / pyproject.toml in the project that
+      gives the key a DIFFERENT valid value, (lacks) the --config file does not mention the key and the discoverable file sets it:
+      the explicit file's value — or the default when it lacks the key — must be in force, read from the same observables (echo,
+      refusal, report format / location); judged by spec_ok on the explicit file's cell, compared with key_model.
  (D2) a file that spells out every key of every section with its documented default must give the same results as
       no file at all, in both file styles; on a project with a .pyi stub also an empty file and a one-key file.
  (D4) keys whose wiring the translator reads off the code (Cli/ConfigKeysWiring.v: [clones] skip_docstrings and
@@ -72,7 +78,7 @@ class Key:
     """kind: bool | int | frac (1/10000) | enum (index into `domain`, 0 = "", len+1 = anything else) | list (index into `lists`)."""
 
     def __init__(self, section, key, kind, default, presence, select, echo, values, plumbing=("UsesFile",), rng=NOVAL, domain=None,
-                 lists=None, behave=None, empty_is_default=False, family=None, argv=None, on_result=False, coq_key=None):
+                 lists=None, behave=None, empty_is_default=False, family=None, argv=None, on_result=False, coq_key=None, explicit_source="explicit"):
         self.section, self.key, self.kind, self.default, self.presence = section, key, kind, default, presence
         self.select, self.echo, self.values, self.plumbing, self.rng = select, echo, values, plumbing, rng
         self.domain, self.lists, self.behave, self.empty_is_default = domain, lists, behave, empty_is_default
@@ -83,6 +89,18 @@ class Key:
         # the key as an instance of Cli/ConfigKeysWiring.v (built from what the translator reads off the code): the model and the
         # judgement are evaluated on that instance; presence / default / range of this table must agree with it (checked)
         self.coq_key = coq_key
+        # which file the CODE reads this key from when --config is given: "explicit" (the resolved configuration, every use case and
+        # generateOutput) or "discovered" (a loader that is not handed the --config path); the PROPERTY always says: the explicit file
+        self.explicit_source = explicit_source
+
+    def valid(self, v):
+        """inside the validated range of the key (a file with this value loads)."""
+        if self.rng == NOVAL:
+            return True
+        lo, hi = self.rng
+        if self.kind == "frac":
+            lo, hi = int(round(lo * 10000)), int(round(hi * 10000))
+        return lo <= self.enc(v) <= hi
 
     # python value -> Z
     def enc(self, v):
@@ -252,16 +270,19 @@ def b_group_clones(data, v):
     return None
 
 
+OUTDIRS = ["outdir", "out2"]
+
+
 def report_directory(r):
-    if r["outdir"] and not r["reports"]:
-        return "outdir"
-    if r["reports"] and not r["outdir"]:
-        return ""
-    return None
+    """where the report went: "" = .pyscn/reports under the working directory, else the configured directory; None: nowhere / two places."""
+    places = [n for n in ["reports"] + OUTDIRS if r.get(n)]
+    if len(places) != 1:
+        return None
+    return "" if places[0] == "reports" else places[0]
 
 
 def report_format(r):
-    exts = sorted({n.rsplit(".", 1)[-1] for n in r["reports"] + r["outdir"]})
+    exts = sorted({n.rsplit(".", 1)[-1] for d in ["reports"] + OUTDIRS for n in (r.get(d) or [])})
     return exts[0] if len(exts) == 1 else None
 
 
@@ -286,8 +307,10 @@ KEYS = [
     Key("output", "format", E, "html", PNE, "complexity", report_format, ["json", "yaml", "csv", "html", "bogus"], rng=(1, 5),
         domain=["text", "json", "yaml", "csv", "html"], argv=["--select", "complexity,deadcode"], on_result=True, coq_key="key_output_format"),
     # where the report goes
-    Key("output", "directory", E, "", PNE, "complexity", report_directory, ["outdir"], domain=["outdir"], argv=["--json", "--select", "complexity"],
-        on_result=True),
+    # under --config the code reads this key from the file discovered from the target, not from the explicit file
+    # (cmd/pyscn/utils.go resolveOutputDirectory: config.LoadConfigWithTarget("", targetPath)): finding C17-G8
+    Key("output", "directory", E, "", PNE, "complexity", report_directory, ["outdir", "out2"], domain=OUTDIRS, argv=["--json", "--select", "complexity"],
+        on_result=True, explicit_source="discovered"),
     # the risk thresholds (their values in force are the business of the option matrix): what the validation refuses
     # (`low_threshold < 1` is tested on a copy that only takes values > 0, config.go:299: 0 and negative values are never refused)
     Key("complexity", "low_threshold", I, 9, PP, "complexity", path("complexity", "Config", "low_threshold"), [0, 19, 25], rng=(-BIG, 18)),
@@ -424,31 +447,52 @@ def config_text(section, kvs, style):
     return "[%s]\n%s" % (section, body)
 
 
+XNAMES = ["custom.toml", "settings.toml", "ci.cfg", "pyscn.conf"]      # the explicit file is named by the user
+UNRELATED = "[lcom]\nlow_threshold = 2\n"                                 # a --config file that does not mention the key under test
+
+
 def run_key_case(args):
-    c17, idx, key, value, style, root = args
-    d = os.path.join(root, "key%04d" % idx)
-    shutil.rmtree(d, ignore_errors=True)
+    """x = None: the key in a discoverable file of the project (value NOFILE: no file).  x = (mode, dv): `value` is what the --config
+    file says (NOFILE: it does not mention the key), dv what a discoverable file of the given style says (NOFILE: there is none)."""
+    c17, idx, key, value, style, root = args[:6]
+    x = args[6] if len(args) > 6 else None
+    top = os.path.join(root, "%skey%04d" % ("x" if x else "", idx))
+    d = os.path.join(top, "proj") if x else top
+    shutil.rmtree(top, ignore_errors=True)
     write_files(c17, d, SELECT_FILES[key.select] if key is not None else sorted(set(c17.FILES) | set(EXTRA_FILES)))
-    if value is not NOFILE:
-        with open(os.path.join(d, ".pyscn.toml" if style == "pyscn" else "pyproject.toml"), "w") as f:
-            f.write(config_text(key.section, [(key.key, key.toml(value))], style))
+    disc_value = x[1] if x else value
+    files = {}
+    if disc_value is not NOFILE:
+        name = ".pyscn.toml" if style == "pyscn" else "pyproject.toml"
+        files[name] = config_text(key.section, [(key.key, key.toml(disc_value))], style)
+        with open(os.path.join(d, name), "w") as f:
+            f.write(files[name])
     if key.argv is None:
         argv = ["--json", "--select", key.select]
     else:
         argv = list(key.argv)
+    if x:
+        cp = os.path.join(top, "cfg", XNAMES[idx % len(XNAMES)])
+        os.makedirs(os.path.dirname(cp))
+        files["--config"] = UNRELATED if value is NOFILE else config_text(key.section, [(key.key, key.toml(value))], "pyscn")
+        with open(cp, "w") as f:
+            f.write(files["--config"])
+        argv += ["--config", cp]
     rc, out, err = lib.pyscn(["analyze", "--no-open"] + argv + ["."], d, timeout=180)
     data = c17.read_report(d)
     rep = os.path.join(d, ".pyscn", "reports")
-    reports = sorted(os.listdir(rep)) if os.path.isdir(rep) else []
-    od = os.path.join(d, "outdir")
-    outdir = sorted(os.listdir(od)) if os.path.isdir(od) else []
-    if data is None and outdir and outdir[-1].endswith(".json"):
-        try:
-            data = json.load(open(os.path.join(od, outdir[-1])))
-        except Exception:
-            data = None
-    shutil.rmtree(d, ignore_errors=True)
-    return dict(rc=rc, data=data, reports=reports, outdir=outdir, stderr=err[-500:], argv=["analyze", "--no-open"] + argv + ["."])
+    res = dict(reports=sorted(os.listdir(rep)) if os.path.isdir(rep) else [])
+    for n in OUTDIRS:
+        od = os.path.join(d, n)
+        res[n] = sorted(os.listdir(od)) if os.path.isdir(od) else []
+        if data is None and res[n] and res[n][-1].endswith(".json"):
+            try:
+                data = json.load(open(os.path.join(od, res[n][-1])))
+            except Exception:
+                data = None
+    shutil.rmtree(top, ignore_errors=True)
+    res.update(rc=rc, data=data, stderr=err[-500:], argv=["analyze", "--no-open"] + argv + ["."], config_files=files)
+    return res
 
 
 BAD_CONFIGS = [("syntax", "[complexity\nmax_complexity = 30\n"), ("type", "[complexity]\nmax_complexity = \"thirty\"\n"),
@@ -571,6 +615,26 @@ class KeySweep:
                     self.cases.append((k, v))
                     self.where.append(("job", len(self.jobs)))
                     self.jobs.append((c17, len(self.jobs), k, v, "pyproject", root))
+        # ---- (D1x) the keys under an explicit --config file: (key, mode, value in the --config file, value in the discoverable file) ----
+        self.xcases, self.xjobs = [], []
+        for k in KEYS:
+            # a value that can be observed: one that loads when the key has an echo, else one whose refusal shows
+            cand = [x for x in k.values if x != k.default and (k.valid(x) if k.echo is not None else not k.valid(x))]
+            if not cand:
+                continue
+            for ev in (cand if thorough else [rng.choice(cand)]):
+                others = []
+                for x in list(k.values) + [k.default]:
+                    if x != ev and k.valid(x) and x not in others:
+                        others.append(x)
+                self.xcases.append((k, "alone", ev, NOFILE))
+                if others:
+                    self.xcases.append((k, "against", ev, rng.choice(others)))
+            loads = [x for x in cand if k.valid(x)]
+            if loads:
+                self.xcases.append((k, "lacks", NOFILE, rng.choice(loads)))
+        for (k, mode, ev, dv) in self.xcases:
+            self.xjobs.append((c17, len(self.xjobs), k, ev, rng.choice(["pyscn", "pyproject"]), root, (mode, dv)))
         # (name, file text); "...+pyi": a project with a stub file, a configuration file that only sets an unrelated key to its default
         self.djobs = [(c17, "nofile", None, root), (c17, "pyscn", explicit_defaults_toml(""), root),
                       (c17, "pyproject", "[project]\nname = \"sample\"\n\n" + explicit_defaults_toml("tool.pyscn."), root),
@@ -594,6 +658,7 @@ class KeySweep:
         self.ex = ThreadPoolExecutor(max_workers=workers)
         self.fut_d = [self.ex.submit(run_defaults_case, j) for j in self.djobs]
         self.fut = [self.ex.submit(run_key_case, j) for j in self.jobs]
+        self.fut_x = [self.ex.submit(run_key_case, j) for j in self.xjobs]
         self.fut_b = [self.ex.submit(run_bad_config, j) for j in self.bjobs]
         self.fut_s = [self.ex.submit(run_selection_case, j) for j in self.sjobs]
 
@@ -602,6 +667,7 @@ class KeySweep:
         self.dres = [f.result() for f in self.fut_d]
         self.bres = [f.result() for f in self.fut_b]
         self.sres = [f.result() for f in self.fut_s]
+        self.xres = [f.result() for f in self.fut_x]
         self.ex.shutdown()
         self.res = [impl[self.absent_runs[w[1]]] if w[0] == "absent" else impl[w[1]] for w in self.where]
 
@@ -613,7 +679,7 @@ class KeySweep:
     def observed(k, r):
         """the outcome as a Coq term, or None when it cannot be read."""
         if k.on_result:
-            if r["rc"] != 0 and not r["reports"] and not r["outdir"]:
+            if r["rc"] != 0 and not r["reports"] and not any(r[n] for n in OUTDIRS):
                 return "Rejected"
             e = k.echo(r)
             return None if e is None else "(InForce %s)" % cZ(k.enc(e))
@@ -633,6 +699,13 @@ class KeySweep:
             o = self.observed(k, r)
             terms.append("(%s, %s)" % (k.coq_run(self.file_arg(k, v)),
                                        "Some (%s)" % k.coq_judge(self.file_arg(k, v), o) if o else "@None bool"))
+        # under --config: the property judges the explicit file's cell; the code model reads the file the code reads the key from
+        xterms = []
+        for (k, mode, ev, dv), r in zip(self.xcases, self.xres):
+            o = self.observed(k, r)
+            rule_arg = self.file_arg(k, ev)
+            code_arg = rule_arg if k.explicit_source == "explicit" else self.file_arg(k, dv)
+            xterms.append("(%s, %s)" % (k.coq_run(code_arg), "Some (%s)" % k.coq_judge(rule_arg, o) if o else "@None bool"))
         # the instances of Cli/ConfigKeysWiring.v against this table: (presence, default, lo, hi) must be the same
         inst = ["(match k_presence %s with %s => true | _ => false end && (k_default %s =? %s) && (k_lo %s =? %s) && (k_hi %s =? %s))"
                 % (k.coq_key, k.presence, k.coq_key, cZ(k.enc(k.default)), k.coq_key, cZ(self.coq_range(k)[0]), k.coq_key, cZ(self.coq_range(k)[1]))
@@ -643,7 +716,16 @@ class KeySweep:
         cb = lambda b: "None" if b is None else ("(Some true)" if b else "(Some false)")
         body += "Eval vm_compute in (%s : list (bool * bool)).\n" % clist(
             ["run_dead_code_runs %s %s %s" % (cb(r["select"]), "true" if r["skip"] else "false", cb(r["file"])) for r in self.sres])
+        body += "Eval vm_compute in %s.\n" % clist(xterms)
         return ("C17_keys", REQ, body)
+
+    # which file is in force in the layouts of (D1x): Cli/Discovery.v resolve / spec_resolve (evaluated with c17.REQ)
+    XLAYOUTS = [("none",), ("pyscn",), ("tool",)]
+
+    def discovery_job(self):
+        c17 = self.c17
+        cases = [dict(cmd="analyze", target=list(t), cwd=None, explicit="file", target_file=False) for t in self.XLAYOUTS]
+        return ("C17_keys_explicit_layouts", c17.REQ, "Eval vm_compute in %s.\n" % clist([c17.coq_discovery(c) for c in cases]))
 
     @staticmethod
     def coq_range(k):
@@ -675,17 +757,29 @@ class KeySweep:
             terms.append("run_detect %s %s" % (sw, clist([self.REASON.get(x, "ROtherReason") for x in base])))
         return terms
 
-    def decide(self, out):
+    def decide(self, out, out_layouts=None):
         ck, c17, cases, res, dres, djobs = self.ck, self.c17, self.cases, self.res, self.dres, self.djobs
-        model = inst = detect = selm = None
+        model = inst = detect = selm = xmodel = None
         try:
             vals = lib.parse_coq_values(out)
-            model, inst, detect, selm = vals[0], vals[1], vals[2], vals[3]
-            if len(model) != len(cases):
-                raise RuntimeError("%d values for %d cases" % (len(model), len(cases)))
+            model, inst, detect, selm, xmodel = vals[0], vals[1], vals[2], vals[3], vals[4]
+            if len(model) != len(cases) or len(xmodel) != len(self.xcases):
+                raise RuntimeError("%d + %d values for %d + %d cases" % (len(model), len(xmodel), len(cases), len(self.xcases)))
         except Exception as e:
             ck.broken_ties.append("key sweep: model evaluation failed: %s" % str(e)[-800:])
-            model = inst = detect = selm = None
+            model = inst = detect = selm = xmodel = None
+        # (D1x) rests on: with --config <file> that file is in force whatever the project holds (Cli/Discovery.v, code model and rule)
+        layouts_ok = False
+        try:
+            lay = lib.parse_coq_values(out_layouts)[0]
+            layouts_ok = len(lay) == len(self.XLAYOUTS)
+            for t, (msrc, ssrc, f24) in zip(self.XLAYOUTS, lay):
+                if tuple(ssrc) != ("SExplicit", 0) or tuple(msrc) != ("SExplicit", 0):
+                    layouts_ok = False
+                    ck.broken_ties.append("key sweep: --config with a project holding %s: Cli/Discovery.v says the file in force is %s (rule) / %s (code model), "
+                                          "the explicit-file cases assume the explicit file" % (t, ssrc, msrc))
+        except Exception as e:
+            ck.broken_ties.append("key sweep: evaluation of the --config layouts (Cli/Discovery.v) failed: %s" % str(e)[-400:])
         if inst is not None:
             for k, same in zip([k for k in KEYS if k.coq_key], inst):
                 if same is not True:
@@ -694,28 +788,44 @@ class KeySweep:
         st = dict(key_cases=len(cases), keys=len(KEYS), spec_bad=0, tie_bad=0, known=0, behaviour_checked=0, rejected=0, unreadable=0,
                   by_plumbing={}, both_styles=self.thorough)
         nshown = 0
-        for i, ((k, v), r) in enumerate(zip(cases, res)):
+        st["explicit_config_cases"] = len(self.xcases) if layouts_ok else 0
+        st["explicit_config_by_mode"] = {}
+        # (key, the value the rule takes from the file in force, run, model entry, None | (mode, --config value, discoverable value))
+        entries = [(k, v, r, None if model is None else model[i], None) for i, ((k, v), r) in enumerate(zip(cases, res))]
+        if layouts_ok:
+            entries += [(k, ev, r, None if xmodel is None else xmodel[i], (mode, ev, dv)) for i, ((k, mode, ev, dv), r) in enumerate(zip(self.xcases, self.xres))]
+        for (k, v, r, mentry, how) in entries:
             o = self.observed(k, r)
-            tags = {"part": "key", "key": k.name, "family": k.family,
+            tags = {"part": "key", "key": k.name, "family": k.family, "config": "explicit" if how else "discovered",
                     "cell": "absent" if v is NOFILE else ("default" if v == k.default else "nondefault")}
             replay = {"key": "[%s] %s" % (k.section, k.key), "file_value": None if v is NOFILE else k.toml(v), "argv": r["argv"], "exit": r["rc"],
-                      "observed": o, "stderr": r["stderr"], "files": SELECT_FILES[k.select]}
+                      "observed": o, "stderr": r["stderr"], "files": SELECT_FILES[k.select], "config_files": r.get("config_files")}
+            desc = "absent" if v is NOFILE else "= " + k.toml(v)
+            if how:
+                mode, ev, dv = how
+                tags["explicit_mode"] = mode
+                st["explicit_config_by_mode"][mode] = st["explicit_config_by_mode"].get(mode, 0) + 1
+                replay["explicit_mode"] = mode
+                tv, tdv = ("" if v is NOFILE else k.toml(v)), ("" if dv is NOFILE else k.toml(dv))
+                desc = {"alone": "= %s in the --config file, no other configuration file" % tv,
+                        "against": "= %s in the --config file, = %s in the project's own file" % (tv, tdv),
+                        "lacks": "not mentioned in the --config file, = %s in the project's own file" % tdv}[mode]
             st["by_plumbing"][k.plumbing[0]] = st["by_plumbing"].get(k.plumbing[0], 0) + 1
             if o == "Rejected":
                 st["rejected"] += 1
             if o is None:
                 st["unreadable"] += 1
                 if k.echo is not None:
-                    ck.broken_ties.append("key sweep: the value in force cannot be read from the report for %s = %s" % (k.name, replay["file_value"]))
-            if model is None:
+                    ck.broken_ties.append("key sweep: the value in force cannot be read from the report for %s %s" % (k.name, desc))
+            if mentry is None:
                 continue
-            m_out, m_ok, judged = model[i]
+            m_out, m_ok, judged = mentry
             m_txt = "Rejected" if m_out == "Rejected" else "(InForce %s)" % cZ(m_out[1])
             replay["model"] = m_txt
             if o is None:
                 # no echo for this key: only a refusal is observable
                 if m_out == "Rejected" and r["rc"] == 0:
-                    ck.broken_ties.append("key sweep: %s = %s is accepted, the model says the run is refused" % (k.name, replay["file_value"]))
+                    ck.broken_ties.append("key sweep: %s %s is accepted, the model says the run is refused" % (k.name, desc))
                 continue
             ok = judged[1] if isinstance(judged, tuple) else None
             if ok is not True:
@@ -727,13 +837,13 @@ class KeySweep:
                     st["spec_bad"] += 1
                     nshown += 1
                     if nshown <= 8:
-                        ck.violation("analyze: [%s] %s %s: the run has %s, the rule (file value when the key is present, else the default %s) says otherwise"
-                                     % (k.section, k.key, "absent" if v is NOFILE else "= " + k.toml(v),
-                                        "been refused" if o == "Rejected" else "the value %s in force" % describe(k, r), k.toml(k.default)), replay)
+                        ck.violation("analyze: [%s] %s %s: the run has %s, the rule (%sfile value when the key is present, else the default %s) says otherwise"
+                                     % (k.section, k.key, desc, "been refused" if o == "Rejected" else "the value %s in force" % describe(k, r),
+                                        "an explicit --config is the file in force; " if how else "", k.toml(k.default)), replay)
             if o != m_txt:
                 st["tie_bad"] += 1
                 if ok is True and st["tie_bad"] <= 4:
-                    ck.broken_ties.append("key sweep: [%s] %s = %s: pyscn %s, model Cli/ConfigKeys.v %s" % (k.section, k.key, replay["file_value"], o, m_txt))
+                    ck.broken_ties.append("key sweep: [%s] %s %s: pyscn %s, model Cli/ConfigKeys.v %s" % (k.section, k.key, desc, o, m_txt))
                 continue
             # behaviour: the echoed value is the one the analysis used
             if k.behave is not None and o != "Rejected" and r["data"] is not None:
